@@ -34,7 +34,7 @@ Lemma res_rel_impl {A} (P Q : A -> A -> Prop) r r' :
 Proof. intros H. destruct r as [a|e], r' as [a'|e']; cbn [res_rel]; auto. Qed.
 
 (* the two values cannot be told apart by the scalar projections of the reader *)
-Definition leaf_eq (v v' : aval) : Prop := jstr v = jstr v' /\ jbool v = jbool v' /\ jint v = jint v'.
+Definition leaf_eq (v v' : aval) : Prop := jstr v = jstr v' /\ jtruthy v = jtruthy v' /\ jint v = jint v'.
 
 Lemma leaf_eq_refl v : leaf_eq v v.
 Proof. repeat split. Qed.
@@ -239,7 +239,7 @@ Section Compat.
     intros HRf HRt. destruct (Ht _ _ HRt) as (Hid & _ & _). unfold gl_child_opt.
     rr_step Hid cid cid' E1 E2.
     pose proof (Hf _ _ HRf cid cid' "optional" Hid opt_key) as Ho.
-    rr_step Ho ov ov' E3 E4. destruct Ho as (_ & Hb & _). exact Hb.
+    rr_step Ho ov ov' E3 E4. destruct Ho as (_ & Hb & _). rewrite Hb. reflexivity.
   Qed.
 
   Lemma gl_flags_compat fv fv' chl chl' : Rf fv fv' -> Forall2 Rt chl chl' -> gl_flags fv chl = gl_flags fv' chl'.
@@ -249,14 +249,10 @@ Section Compat.
     pose proof (gl_child_opt_compat fv fv' c c' HRf Hcc) as Ho. unfold gl_child_opt in Ho.
     destruct (jget "id" c) as [cid|e], (jget "id" c') as [cid'|e']; try discriminate; try reflexivity.
     - destruct (finfo_get fv cid "optional") as [ov|e], (finfo_get fv' cid' "optional") as [ov'|e'];
-        try reflexivity.
-      + rewrite Ho. reflexivity.
-      + destruct (jbool ov); [discriminate|reflexivity].
-      + destruct (jbool ov'); [discriminate|reflexivity].
-    - destruct (finfo_get fv cid "optional") as [ov|e]; [|reflexivity].
-      destruct (jbool ov); [discriminate|reflexivity].
-    - destruct (finfo_get fv' cid' "optional") as [ov'|e']; [|reflexivity].
-      destruct (jbool ov'); [discriminate|reflexivity].
+        try discriminate; try reflexivity.
+      injection Ho as ->. reflexivity.
+    - destruct (finfo_get fv cid "optional") as [ov|e]; [discriminate|reflexivity].
+    - destruct (finfo_get fv' cid' "optional") as [ov'|e']; [discriminate|reflexivity].
   Qed.
 
   Lemma gl_goc_compat rec rec' fv fv' here wh : Rf fv fv' -> forall chl chl', Forall2 Rt chl chl' ->
@@ -851,8 +847,29 @@ Proof.
   destruct (assoc k kv), (assoc k kv'); try contradiction; reflexivity.
 Qed.
 
+(* the truth value of a list / an object is its non-emptiness *)
+Lemma jtruthy_list_length l l' : List.length l = List.length l' -> jtruthy (VList l) = jtruthy (VList l').
+Proof. destruct l, l'; cbn [List.length jtruthy]; intros H; try discriminate H; reflexivity. Qed.
+
+Lemma jtruthy_map_length kv kv' : List.length kv = List.length kv' -> jtruthy (VMap kv) = jtruthy (VMap kv').
+Proof. destruct kv, kv'; cbn [List.length jtruthy]; intros H; try discriminate H; reflexivity. Qed.
+
+Lemma Forall2_same_length {A B} (R : A -> B -> Prop) l l' : Forall2 R l l' -> List.length l = List.length l'.
+Proof. intros H. induction H as [|x y l l' _ _ IH]; [reflexivity|]. cbn [List.length]. rewrite IH. reflexivity. Qed.
+
+Lemma pdict_length (R : string -> aval -> aval -> Prop) kv kv' : pdict R kv kv' -> List.length kv = List.length kv'.
+Proof.
+  intros H. destruct H as [kv kv' H|kv kv1 kv' _ Hp H].
+  - exact (Forall2_same_length _ _ _ H).
+  - rewrite (Permutation_length Hp). exact (Forall2_same_length _ _ _ H).
+Qed.
+
 Lemma jperm_leaf v v' : jperm v v' -> leaf_eq v v'.
-Proof. intros H. destruct H; repeat split. Qed.
+Proof.
+  intros H. destruct H as [v|l l' H|kv kv' H]; repeat split.
+  - apply jtruthy_list_length. exact (Forall2_same_length _ _ _ H).
+  - apply jtruthy_map_length. exact (pdict_length _ _ _ H).
+Qed.
 
 Lemma jperm_jget k v v' : jperm v v' -> res_rel jperm (jget k v) (jget k v').
 Proof.
@@ -1300,7 +1317,11 @@ Proof.
 Qed.
 
 Lemma jq_leaf v v' : jperm' v v' -> leaf_eq v v'.
-Proof. intros H. destruct H; repeat split. Qed.
+Proof.
+  intros H. destruct H as [v|l l' H|kv kv' H]; repeat split.
+  - apply jtruthy_list_length. exact (Forall2_same_length _ _ _ H).
+  - apply jtruthy_map_length. exact (pdict_length _ _ _ H).
+Qed.
 
 Lemma jq_data v v' : jperm' v v' -> data_of_json v = data_of_json v'.
 Proof. intros H. destruct H; reflexivity. Qed.
